@@ -526,7 +526,7 @@ pub fn run(ctx_: &Ctx) {
     // the watchdog thread needs 'static; the context lives until process exit
     let ctx: &'static Ctx = unsafe { &*(ctx_ as *const Ctx) };
     start_watchdog(ctx);
-    ctx.set_rule("(a) every byte string of length <=2 (thorough: <=3) after a valid header, quick also 200000 generated of length 3; (b) grid value-tag 0x00-0xff x value-length {0..16,0xffff} x 5 fill patterns as a single-attribute message, complete and truncated, and the same (tag, body) through IppValue::parse; (c) tags 0x35/0x36 x outer length 0..12 x inner length pairs {0..14,0xff,0xffff}^2; (d) all sequences of up to k protocol tokens (quick k=4, thorough k=5); (e) grammar-aware mutants of generated wire trees + model encodings + raw bytes (proptest); (e') the search of (e) once more, and 1645 long single text values (lengths 100-140, 254-257, 1023-1025; ASCII, 2-/3-/4-byte characters at every alignment, invalid UTF-8), with a `log` logger installed and enabled at trace level so that the code inside the parser's logging statements runs; (f) structural bombs in child processes on a 2 MiB stack (13 families x sizes up to 1 MiB, thorough 4 MiB, closed/unterminated/truncated variants). Every input goes to the blocking parser and the async parser (whole and 1-byte chunks with not-ready results); Ok results are displayed, debug-formatted, re-encoded, traversed, cloned, compared and dropped. Non-trivial = the input passes the 8-byte header and reaches at least one tag dispatch (length >= 9); enumerated inputs are pairwise distinct by construction, generated ones are counted by hash.");
+    ctx.set_rule("(a) every byte string of length <=2 (thorough: <=3) after a valid header, quick also 200000 generated of length 3; (b) grid value-tag 0x00-0xff x value-length {0..16,0xffff} x 5 fill patterns as a single-attribute message, complete and truncated, and the same (tag, body) through IppValue::parse; (c) tags 0x35/0x36 x outer length 0..12 x inner length pairs {0..14,0xff,0xffff}^2; (d) all sequences of up to k protocol tokens (quick k=4, thorough k=5); (e) grammar-aware mutants of generated wire trees + model encodings + raw bytes (proptest); (e') the search of (e) once more, and 1645 long single text values (lengths 100-140, 254-257, 1023-1025; ASCII, 2-/3-/4-byte characters at every alignment, invalid UTF-8), with a `log` logger installed and enabled at trace level so that the code inside the parser's logging statements runs; (e'') generated inputs through the blocking parser called from inside futures_executor::block_on and inside a tokio runtime (same outcome as on a plain thread, no panic), and fed by a source that never ends, the result dropped unread (must return); (f) structural bombs in child processes on a 2 MiB stack (13 families x sizes up to 1 MiB, thorough 4 MiB, closed/unterminated/truncated variants). Every input goes to the blocking parser and the async parser (whole and 1-byte chunks with not-ready results); Ok results are displayed, debug-formatted, re-encoded, traversed, cloned, compared and dropped. Non-trivial = the input passes the 8-byte header and reaches at least one tag dispatch (length >= 9); enumerated inputs are pairwise distinct by construction, generated ones are counted by hash.");
     ctx.assume("'no stack overflow' is decided for a 2 MiB thread stack (Rust's default for spawned threads) and inputs up to 1 MiB (4 MiB thorough)");
     ctx.assume("a hang is reported when one input yields no result for 30 s in-process / 240 s for a bomb child");
 
@@ -747,8 +747,92 @@ pub fn run(ctx_: &Ctx) {
     ctx.label_n("e': long single values with trace logging", n);
     set_trace_logging(false);
 
+    // (e'') caller contexts: the blocking parser called from inside an executor (a synchronous helper
+    // invoked from async code), and fed by a source that never ends (a connection the peer keeps open
+    // and keeps writing to): the result is dropped unread, which must return
+    let (shards, per) = ctx.tier.pick((16, 600), (16, 12000));
+    run_prop(
+        ctx,
+        "caller-contexts",
+        shards,
+        per,
+        input_strategy,
+        |inp: &Input, p| {
+            let b = inp.bytes();
+            p.label("e'': blocking parser inside futures_executor / tokio, and on an endless source");
+            if b.len() >= 9 {
+                p.nontrivial(hash64(&("contexts", &b)));
+            }
+            begin(&b);
+            let r = contexts_one(&b);
+            end();
+            r
+        },
+        |inp| json!({"bytes": hex(&inp.bytes()), "caller_contexts": true}),
+    );
+
     // (f) bombs
     bombs(ctx);
+}
+
+/// a source that delivers `data` and then filler octets for ever
+struct Endless {
+    data: Vec<u8>,
+    pos: usize,
+}
+
+impl std::io::Read for Endless {
+    fn read(&mut self, buf: &mut [u8]) -> std::io::Result<usize> {
+        if self.pos < self.data.len() {
+            let n = buf.len().min(self.data.len() - self.pos);
+            buf[..n].copy_from_slice(&self.data[self.pos..self.pos + n]);
+            self.pos += n;
+            Ok(n)
+        } else {
+            // (a few octets per call; they look like nothing in particular)
+            let n = buf.len().min(5);
+            buf[..n].fill(0xaa);
+            Ok(n)
+        }
+    }
+}
+
+static TOKIO_RT: std::sync::OnceLock<tokio::runtime::Runtime> = std::sync::OnceLock::new();
+
+fn contexts_one(bytes: &[u8]) -> Judge {
+    use ipp::parser::IppParser;
+    use ipp::reader::IppReader;
+    let parse = |b: Vec<u8>| IppParser::new(IppReader::new(std::io::Cursor::new(b))).parse().map(|m| m.header().request_id).is_ok();
+    let plain = catch(|| parse(bytes.to_vec())).map_err(|p| Fail::new(format!("C02/{}", panic_sig(&p)), format!("blocking parser panicked: {p}; bytes={}", hex_short(bytes))))?;
+    // inside futures_executor::block_on
+    let b = bytes.to_vec();
+    let in_fut = catch(move || futures_executor::block_on(async move { parse(b) })).map_err(|p| Fail::new(format!("C02/in-futures-executor/{}", panic_sig(&p)), format!("the blocking parser, called on a thread that is inside futures_executor::block_on, panicked: {p}; bytes={}", hex_short(bytes))))?;
+    // inside a tokio runtime
+    let rt = TOKIO_RT.get_or_init(|| tokio::runtime::Builder::new_multi_thread().worker_threads(2).enable_all().build().expect("tokio runtime"));
+    let b = bytes.to_vec();
+    let in_tokio = catch(move || rt.block_on(async move { parse(b) })).map_err(|p| Fail::new(format!("C02/in-tokio/{}", panic_sig(&p)), format!("the blocking parser, called inside a tokio runtime, panicked: {p}; bytes={}", hex_short(bytes))))?;
+    if in_fut != plain || in_tokio != plain {
+        return Err(Fail::new("C02/outcome-depends-on-caller-context", format!("blocking parser: Ok={plain} on a plain thread, Ok={in_fut} inside futures_executor, Ok={in_tokio} inside tokio; bytes={}", hex_short(bytes))));
+    }
+    // a source that never ends: parse, then drop whatever came back without reading it (a hang here is
+    // reported by the watchdog)
+    let b = bytes.to_vec();
+    catch(move || {
+        let r = IppParser::new(IppReader::new(Endless { data: b, pos: 0 })).parse();
+        drop(r);
+    })
+    .map_err(|p| Fail::new(format!("C02/endless-source/{}", panic_sig(&p)), format!("blocking parser on a source that never ends panicked: {p}; bytes={}", hex_short(bytes))))?;
+    let b = bytes.to_vec();
+    catch(move || {
+        if let Ok((_h, _a, reader)) = IppParser::new(IppReader::new(Endless { data: b, pos: 0 })).parse_parts() {
+            let mut payload = reader.into_payload();
+            let mut one = [0u8; 1];
+            let _ = std::io::Read::read(&mut payload, &mut one);
+            drop(payload);
+        }
+    })
+    .map_err(|p| Fail::new(format!("C02/endless-source/{}", panic_sig(&p)), format!("parse_parts on a source that never ends panicked: {p}; bytes={}", hex_short(bytes))))?;
+    Ok(())
 }
 
 pub fn replay(_ctx: &Ctx, sub: &str, case: &Value) -> Judge {
@@ -774,6 +858,17 @@ pub fn replay(_ctx: &Ctx, sub: &str, case: &Value) -> Judge {
         return total_one(&seq_bytes(&seq)).map(|_| ());
     }
     let bytes = unhex(case.get("bytes").and_then(|b| b.as_str()).unwrap_or("")).ok_or_else(|| Fail::new("bad-replay", "bytes"))?;
+    if case.get("caller_contexts").is_some() {
+        let (tx, rx) = std::sync::mpsc::channel();
+        let b2 = bytes.clone();
+        std::thread::spawn(move || {
+            let _ = tx.send(contexts_one(&b2));
+        });
+        return match rx.recv_timeout(Duration::from_secs(HANG_SECS)) {
+            Ok(r) => r,
+            Err(_) => Err(Fail::new("C02/hang", format!("no result after {HANG_SECS}s (blocking parser in a caller context / on an endless source)"))),
+        };
+    }
     if case.get("trace_logging").and_then(|b| b.as_bool()) == Some(true) || sub.starts_with("fuzz-") {
         set_trace_logging(true);
     }
